@@ -28,8 +28,24 @@ def clamp(w):
     return 2 if w < 2 else (30 if w >= 30 else w)
 
 
+def ksum(xs):
+    xs = list(xs)
+    try:
+        return math.fsum(xs)
+    except (ValueError, OverflowError):
+        return sum(xs)              # non-finite terms: inf or nan, never an exception
+
+
+def fsin(a):
+    return math.sin(a) if math.isfinite(a) else math.nan
+
+
+def fcos(a):
+    return math.cos(a) if math.isfinite(a) else math.nan
+
+
 def wrap(a):
-    return math.atan2(math.sin(a), math.cos(a))
+    return math.atan2(fsin(a), fcos(a))
 
 
 def angdiff(a, b):
@@ -100,17 +116,19 @@ def combo_rows(lin, circ, cols, a):
     """rows of the weighted combination of the columns `cols` with (linear-domain) weights `a`:
     linear rows arithmetic, circular rows on the circle.  Returns [(expected, tol) or None (ill-conditioned)]."""
     out = []
-    sa = math.fsum(abs(x) for x in a)
+    sa = ksum(abs(x) for x in a)
     for r in range(lin):
         terms = [c[r] * x for c, x in zip(cols, a)]
-        scale = math.fsum(abs(x) for x in terms)
-        out.append((math.fsum(terms), 64 * EPS * scale * max(1, len(a)) ** 0.5 + 1e-300))
+        scale = ksum(abs(x) for x in terms)
+        out.append((ksum(terms), 64 * EPS * scale * max(1, len(a)) ** 0.5 + 1e-300))
     for r in range(lin, lin + circ):
-        s = math.fsum(math.sin(c[r]) * x for c, x in zip(cols, a))
-        co = math.fsum(math.cos(c[r]) * x for c, x in zip(cols, a))
+        s = ksum(fsin(c[r]) * x for c, x in zip(cols, a))
+        co = ksum(fcos(c[r]) * x for c, x in zip(cols, a))
         R = math.hypot(s, co)
         big = max([abs(c[r]) for c in cols] + [1.0])
-        if R <= 1e-6 * sa or sa == 0.0:
+        if not math.isfinite(R) or not math.isfinite(sa):
+            out.append((math.nan, 0.0))      # a non-finite stored estimate: nothing can match
+        elif R <= 1e-6 * sa or sa == 0.0:
             out.append(None)
         else:
             # error of the resultant: rounding of sin/cos arguments grows with |angle|
@@ -118,10 +136,9 @@ def combo_rows(lin, circ, cols, a):
     return out
 
 
-def map_products(c):
+def map_products(c, eps=Fraction(DBL_MIN)):
     """exact rational value of (l_i + eps) * sum_j (t_ij + eps) * e^{w_j} for the doubles the code sees"""
     e = [Fraction(fexp(w)) for w in c["pw"]]
-    eps = Fraction(DBL_MIN)
     out = []
     for i in range(len(c["ps"])):
         s = sum((Fraction(c["tp"][i][j]) + eps) * e[j] for j in range(len(e)))
@@ -168,6 +185,10 @@ def check_base(stat, lin, circ, c, v):
     best = max(fin)
     thr = best if stat == 1 else best * (1 - Fraction(1, 10 ** 10))
     good = [i for i in cand if score[i] is not None and score[i] >= thr]
+    if stat == 2 and not good:
+        # the property speaks of the un-guarded product; the 2.2e-308 guard only matters at exact zeros
+        s0 = map_products(c, Fraction(0))
+        good = [i for i in cand if s0[i] >= max(s0) * (1 - Fraction(1, 10 ** 10))]
     i = good[0] if good else cand[0]
     if not good:
         if stat == 1:
@@ -313,6 +334,10 @@ def eval_ee(line, hout, dout, wtab, stats, notes):
                         stats["max_model_err_over_tol"] = max(stats["max_model_err_over_tol"], dd / tol)
                     if not dd <= tol:
                         bad = "estimate row %d: implementation %r, model %r" % (r, x, y)
+                        if r >= lin and ev is not None and "one-column-shortcut" in " ".join(dt) and angdiff(x, ev[0]) <= tol:
+                            # the model returns a single column unwrapped (as the code did when it was written);
+                            # the implementation returns the value the property asks for
+                            explained = "one-column-shortcut-absent-in-implementation"
                         break
             if bad:
                 here_fail = [p for p in probs if p[0] == "prop" and p[2].startswith(where)]
@@ -367,8 +392,8 @@ def eval_probe(fam, window, hout, dout, wtab, stats):
             probs.append(("prop", "window-not-most-recent", "%s: the estimate depends on a base estimate that is not among the %d most recent" % (where, k)))
         if not all(x > 0.0 for x in a):
             probs.append(("prop", "weights-not-positive", "%s: weights %r are not all positive" % (where, a[:6])))
-        elif not abs(math.fsum(a) - 1.0) <= 64 * k * EPS:
-            probs.append(("prop", "weights-not-normalised", "%s: weights sum to %r" % (where, math.fsum(a))))
+        elif not abs(ksum(a) - 1.0) <= 64 * k * EPS:
+            probs.append(("prop", "weights-not-normalised", "%s: weights sum to %r" % (where, ksum(a))))
         elif any(a[i + 1] > a[i] * (1 + 8 * EPS) for i in range(k - 1)):
             probs.append(("prop", "weights-increase-with-age", "%s: weights %r increase with age" % (where, a[:6])))
         elif fam == 1 and any(abs(x - 1.0 / k) > 8 * EPS / k for x in a):
@@ -646,12 +671,12 @@ def run(ctx):
     cases.append((hb_line([("A", el(i + 1)) for i in range(7)] + [("G",)] + [("D",), ("G",)] * 6 + [("I",), ("A", el(50)), ("G",)] * 32), "hb", {"src": "dec-inc"}))
     cases.append(("hb 3 9 A %s A %s G S 2 A %s G S 1 C G" % (" ".join(el(i) for i in (1, 2, 3)), " ".join(el(i) for i in (4, 5, 6)), " ".join(el(i) for i in (7, 8, 9))), "hb", {"src": "dim3"}))
     gb = ctx.gen("hb")
-    for _ in range(ctx.n(300, 5000)):
+    for _ in range(ctx.n(600, 8000)):
         cases.append((hb_random(gb, gb.r.randint(5, 80)), "hb", {"src": "random"}))
     # extraction: method matrix and random call sequences
     for ln in method_matrix(g):
         cases.append((ln, "ee", {"src": "matrix"}))
-    nseq = ctx.n(160, 4000)
+    nseq = ctx.n(500, 6000)
     for _ in range(nseq):
         cases.append((gen_sequence(g, 60), "ee", {"src": "random"}))
 
